@@ -64,6 +64,8 @@ def nfa_from_code(k, S, code, eps="", prefix="s", plain_dict=False):
             if tg:
                 delta[q, x] = tg
     F = {Q[i] for i in range(k) if (code >> i) & 1}
+    if plain_dict or code % 3 == 0:
+        delta = dict(delta)            # a PARTIAL plain dict: undefined entries mean the empty set
     return NFA(set(Q), set(S), delta, Q[0], F, eps)
 
 
@@ -84,6 +86,8 @@ def random_nfa(rng, k, S, eps="", prefix="s", density=None, total=False):
                 delta[q, x] = tg
     p = rng.choice([0.0, 0.3, 0.5, 0.7, 1.0])
     F = {q for q in Q if rng.random() < p}
+    if not total and rng.random() < 0.3:
+        delta = dict(delta)            # partial plain dict
     return NFA(set(Q), set(S), delta, Q[0], F, eps)
 
 
